@@ -4396,6 +4396,9 @@ def bundle_liveness(P, R, L):
     R.once(own12_release_unlinks_that_version, P, R, L)
     R.once(c11.ord13, P, R, L)
     R.once(list1_iteration_covers_the_list, P, R, L)
+    from . import blind
+    R.clause("LST-1", "the intrusive list behind the version list and the snapshot list: remove_node unlinks exactly the given node on both sides, push_node appends behind the old tail")
+    R.once(blind.lst1_link_repairs, P, R, L)
 
 
 def bundle_readpath(P, R, L):
